@@ -206,6 +206,7 @@ public:
   DecodingTable(uint sigma) {
     this->nodes = 0;
     this->subtrees = new DecodingTree *[sigma];
+    initEntries();
   };
 
   /** @returns the chunk length used in the table */
@@ -263,6 +264,14 @@ protected:
   BitString *endings;      //! Bitstring setting the streams with '\0'
 
   Entry ventry[256];
+
+  /** Precomputes the (length, bits) information encoded in each byte. */
+  void initEntries() {
+    for (uint i = 0; i < 256; i++) {
+      ventry[i].length = ((i & 240) >> 4);
+      ventry[i].bits = ((i & 15) + 1);
+    }
+  }
 
   /** Encodes in a byte the information used for decoding a
       given susbtring.
